@@ -3,6 +3,7 @@ CONSTANTS
   TrimAt = 5
   DefaultSock = 4
   AsIs = FALSE
+  Eager = FALSE
   DataLens = {1, 2, 3}
   MaxPackets = 2
   Skips = {0, 2}
